@@ -67,6 +67,7 @@ type RunParams struct {
 	Alt        bool   `json:"alt"`
 	Hold       bool   `json:"hold"`
 	FailOpen   bool   `json:"failopen"`
+	FailClose  bool   `json:"failclose"`
 	WalStates  bool   `json:"walstates"`
 }
 
